@@ -29,6 +29,7 @@ structure Cfg where
   xAngleDefault : Expr
   surfaceY : Expr
   transposed : Bool
+  stripKind : StripKind
   centre : LTerm
   width : LTerm
   usableDefault : LTerm
@@ -104,7 +105,7 @@ def handle (cfg : Cfg) (st : St) (line : String) : St × String :=
     | some p =>
       if !splineAccepts p then (st, "rejected")
       else
-        let q := splinePoints cfg.centre p
+        let q := splinePoints cfg.stripKind cfg.centre p
         let usable := match floatOfBitsStr uw with
           | some u => if u == 0.0 then cfg.usableDefault.eval q else u   -- `if usable_width:` is falsy for 0
           | none => cfg.usableDefault.eval q
